@@ -365,6 +365,43 @@ fn call_reader(reader: &str, bytes: &[u8], w: &World) -> Result<bool, String> {
     }
 }
 
+/// Independent reading of the declarations in a file: does the header or an entry declare more
+/// data / table entries / file bytes than the buffer holds? (None = this reader's layout is not
+/// modelled, or the file is too damaged to say)
+fn over_declares(reader: &str, b: &[u8]) -> Option<bool> {
+    let be32 = |o: usize| b.get(o..o + 4).map(|s| u32::from_be_bytes([s[0], s[1], s[2], s[3]]) as u64);
+    let le32 = |o: usize| b.get(o..o + 4).map(|s| u32::from_le_bytes([s[0], s[1], s[2], s[3]]) as u64);
+    match reader {
+        "fe9arc" => {
+            if b.len() < 8 || &b[0..4] != b"pack" {
+                return None;
+            }
+            let count = u16::from_be_bytes([b[4], b[5]]) as usize;
+            if 8 + count * 16 > b.len() {
+                return Some(true);
+            }
+            for i in 0..count {
+                let e = 8 + i * 16;
+                let addr = be32(e + 8)?;
+                let size = be32(e + 12)?;
+                if addr + size > b.len() as u64 {
+                    return Some(true);
+                }
+            }
+            Some(false)
+        }
+        "bin_le" | "bin_be" => {
+            if b.len() < 0x20 {
+                return None;
+            }
+            let rd = |o: usize| if reader == "bin_be" { be32(o) } else { le32(o) };
+            let need = 0x20 + rd(4)? + rd(8)? * 4 + rd(12)? * 8;
+            Some(need > b.len() as u64)
+        }
+        _ => None,
+    }
+}
+
 fn case(ctx: &mut RunCtx, w: &mut World, reader: &str, bytes: &[u8]) -> Step<()> {
     if reader.starts_with("fs:") && bytes.len() > 1200 {
         return Ok(()); // LZ13 compression is quadratic
@@ -399,6 +436,17 @@ fn case(ctx: &mut RunCtx, w: &mut World, reader: &str, bytes: &[u8]) -> Step<()>
         Ok(Err(e)) => harness(e),
         Ok(Ok(accepted)) => {
             ctx.probe(if accepted { "accepted" } else { "rejected" });
+            if over_declares(reader, bytes) == Some(true) {
+                ctx.probe("over_declaring_file");
+                if accepted {
+                    refine(ctx);
+                    return ctx.violation(
+                        "over_declaration_rejected",
+                        format!("accepted_over_declaring|{}", reader),
+                        format!("reader {} accepted a {}-byte file whose header or an entry declares more than the buffer holds: {}", reader, bytes.len(), short),
+                    );
+                }
+            }
             // the filesystem path compresses / decompresses: buffers proportional to the payload only
             if max_req > alloc_bound(bytes.len()) {
                 refine(ctx);
